@@ -63,6 +63,18 @@ def ensure_astx():
 _loaded = {}
 
 
+def prune_cache(keep=150):
+    """The cache is keyed by tree hash: every scratch copy analysed (mutants, seeded changes) adds
+    entries.  Keep the most recently used few."""
+    try:
+        files = [os.path.join(CACHE, f) for f in os.listdir(CACHE) if f.endswith(".json")]
+        files.sort(key=lambda f: os.stat(f).st_mtime, reverse=True)
+        for f in files[keep:]:
+            os.remove(f)
+    except OSError:
+        pass
+
+
 def load_facts(config="default", repo=None):
     repo = repo or REPO
     key = (config, repo)
@@ -78,6 +90,9 @@ def load_facts(config="default", repo=None):
         if r.returncode != 0:
             raise FactsError("astx failed: " + r.stderr[-2000:])
         os.replace(tmp, out)
+        prune_cache()
+    else:
+        os.utime(out, None)
     with open(out) as fh:
         doc = json.load(fh)
     if doc.get("errors"):
